@@ -469,16 +469,19 @@ theorem define_sugar_beq_partial (j : Nat) (s : SynEnv)
 end sugar
 
 open Ruschm.Xform in
-/-- The unconditional statement (NOT proved; believed true — it needs the fact that the whole
-transformer depends on the syntax environment only through `SynEnv.get?`, a mutual induction over
-all of `RuschmModel/Xform.lean`). -/
-def define_sugar_beq_full : Prop :=
-  ∀ (f : String) (formalsD bsD : Datum) (ld lf l₁ l₂ l ld' lf' l₃ l₄ l₅ l₆ l₇ l₈ l' : Loc) (j : Nat) (s : SynEnv)
-    n₁ e₁ d₁ s₁ n₂ e₂ d₂ s₂,
-    toStatement (j+2) (sugarDatum f formalsD bsD ld lf l₁ l₂ l) s = (.ok (.definition (.mk n₁ e₁ d₁)), s₁) →
-    toStatement (j+5) (lambdaDatum f formalsD bsD ld' lf' l₃ l₄ l₅ l₆ l₇ l₈ l') s =
-      (.ok (.definition (.mk n₂ e₂ d₂)), s₂) →
-    n₁ = n₂ ∧ Expr.beq e₁ e₂ = true
+/-- Unconditionally: whenever both spellings transform (in the same syntax environment, with the
+corresponding fuel) they define the same name with `Expr.beq`-equal right-hand sides.  (The body
+data transform alike in the enclosing scope and in a fresh child scope of it — `toBody_inChild`,
+proved by showing that every function of `RuschmModel/Xform.lean` uses the syntax environment only
+through lookups, `define` and child scopes.) -/
+theorem define_sugar_beq (f : String) (formalsD bsD : Datum) (ld lf l₁ l₂ l ld' lf' l₃ l₄ l₅ l₆ l₇ l₈ l' : Loc)
+    (j : Nat) (s : SynEnv) {n₁ e₁ d₁ s₁ n₂ e₂ d₂ s₂}
+    (h₁ : toStatement (j+2) (sugarDatum f formalsD bsD ld lf l₁ l₂ l) s = (.ok (.definition (.mk n₁ e₁ d₁)), s₁))
+    (h₂ : toStatement (j+5) (lambdaDatum f formalsD bsD ld' lf' l₃ l₄ l₅ l₆ l₇ l₈ l') s =
+            (.ok (.definition (.mk n₂ e₂ d₂)), s₂)) :
+    n₁ = n₂ ∧ Expr.beq e₁ e₂ = true :=
+  define_sugar_beq_partial f formalsD bsD ld lf l₁ l₂ l ld' lf' l₃ l₄ l₅ l₆ l₇ l₈ l' j s
+    (toBody_inChild j bsD.elems s) h₁ h₂
 
 open Ruschm.Xform in
 /-- `(define (f x . r) (cons x r))` and `(define f (lambda (x . r) (cons x r)))` -/
